@@ -1,4 +1,5 @@
 #include "seams.hpp"
+#include <link.h>
 #include <sys/mman.h>
 #include <ucontext.h>
 #include <unistd.h>
@@ -13,6 +14,21 @@ sigjmp_buf g_crash_jmp;
 volatile sig_atomic_t g_in_lib = 0;
 CrashInfo g_crash;
 volatile uint64_t g_call_seq = 0;
+
+// ------------------------------------------------------------------ TLS of the executable image
+static ExeTls g_exetls; static bool g_exetls_probed = false;
+static int exetls_cb(struct dl_phdr_info *info, size_t, void *) {
+    for (int i = 0; i < info->dlpi_phnum; ++i) if (info->dlpi_phdr[i].p_type == PT_TLS && info->dlpi_tls_data) {
+        g_exetls.block = (uint8_t *)info->dlpi_tls_data; g_exetls.memsz = info->dlpi_phdr[i].p_memsz; g_exetls.filesz = info->dlpi_phdr[i].p_filesz;
+        g_exetls.image = (const uint8_t *)(info->dlpi_addr + info->dlpi_phdr[i].p_vaddr);
+    }
+    return 1;       // the first entry is the main program; shared objects keep their own TLS (libc's errno and friends are not ours to swap)
+}
+const ExeTls &exe_tls() { if (!g_exetls_probed) { g_exetls_probed = true; dl_iterate_phdr(exetls_cb, nullptr); } return g_exetls; }
+void exe_tls_reset() { const ExeTls &t = exe_tls(); if (!t.memsz) return; memcpy(t.block, t.image, t.filesz); memset(t.block + t.filesz, 0, t.memsz - t.filesz); }
+void exe_tls_save(std::vector<uint8_t> &to) { const ExeTls &t = exe_tls(); to.assign(t.block, t.block + t.memsz); }
+void exe_tls_load(const std::vector<uint8_t> &from) { const ExeTls &t = exe_tls(); if (t.memsz && from.size() == t.memsz) memcpy(t.block, from.data(), t.memsz); }
+void SimCPU::set(const CpuModel *m) { if (m && m != model) exe_tls_reset(); model = m; }
 
 // Sanitizer flavour: classify sanitizer deaths (exit code 77) and leave the
 // fault signals to the simulator's own handlers.
